@@ -827,3 +827,41 @@ func splitIndexKey(k string) (base, idx string, ok bool) {
 	}
 	return "", "", false
 }
+
+// OPEN-END (C04/C08): only the unbounded `*` of a Wild node is an open range end.
+func ruleOPENEND(c *Ctx, r *Report) {
+	const rule = "OPEN-END"
+	r.doc(rule, "wherever a serialiser (or a helper with a serialiser's signature) answers with the open-end marker '*' without producing a parameter, the operand is proven to be a Wild leaf whose payload is the string \"*\": a quoted \"*\" (a Literal) is a value and must travel as a parameter")
+	dr := c.driverRoles()
+	if dr.Err != "" {
+		r.bad(rule, "anchor", "-", dr.Err)
+		return
+	}
+	n := 0
+	for _, f := range c.serKeep() {
+		if f == nil || f == dr.Render || f == dr.RenderParam || f.Signature.Results().Len() != 3 {
+			continue // the parameterized serialiser and its wrappers
+		}
+		rows, _ := c.successSkeletons(f)
+		for _, row := range rows {
+			if row.Str != "'*'" {
+				continue
+			}
+			n++
+			wild := subsetOf(c.possibleOps(row.Atoms, "$1.(*expr.Expression).Op"), []string{"expr.Wild"})
+			star := false
+			for _, a := range c.expand(row.Atoms, nil) {
+				if a.Kind == "cmp" && a.Op == "==" && a.Val == `"*"` && strings.HasSuffix(a.Subj, ".Left.(string)") {
+					star = true
+				}
+			}
+			key := fnName(f) + "|marker"
+			if wild && star {
+				r.ok(rule, key, c.instrPos(row.P.Ret), "Wild leaf with payload \"*\"")
+			} else {
+				r.badW(rule, key, c.instrPos(row.P.Ret), fmt.Sprintf("%s renders an operand as the open-end marker '*' with no parameter without having established that it is a Wild leaf (%v) holding \"*\" (%v): a quoted \"*\" used as a range bound is dropped from the parameter list", fnName(f), wild, star), "`a:[\"*\" TO \"z\"]`")
+			}
+		}
+	}
+	r.floor(rule, "marker answers", n, 1)
+}
